@@ -303,6 +303,8 @@ def check_accumulator(ctx, a, rb, lp, acc, errb):
             okb, why = False, 'total_bytes is not decremented exactly once by %s after the removal loop (%s)' % (acc, tb)
             break
         cnt = term_expr[('num_items', ni[0][0])] if len(ni) == 1 and ni[0][2] == 1 else None
+        if cnt is not None and cnt[0] == 'local' and _counts_removals(a, lp, rb, cnt):
+            continue
         if cnt is None or not (cnt[0] == 'call' and sg(cnt[1]).endswith('Vec::len') and driver is not None and cnt[2][0] == driver):
             okb, why = False, 'num_items is not decremented exactly once by the length of the vector that drives the removal loop (%s)' % ni
             break
@@ -310,6 +312,31 @@ def check_accumulator(ctx, a, rb, lp, acc, errb):
         return
     ctx.check(okb, 'R13a', fn, 'acc.flush', a.loc(rb), 'after the loop total_bytes -= %s once and num_items -= len(removal index list) once on every path to the guard release' % acc, why)
     # the count must be taken before the index list is consumed and after it is complete: same vector, no pushes in between is implied by `move`
+
+
+def _counts_removals(a, lp, rb, cnt):
+    """cnt is a running counter of the removals of this loop: 0 before the loop, `+= 1` exactly once in every iteration
+    that removes (after the removal), nowhere else"""
+    head, blks = lp
+    ds = a.flow.defs.get(cnt[1], [])
+    inits = [d for d in ds if d[0] == 'assign' and d[1] not in blks]
+    incs = [d for d in ds if d[1] in blks]
+    if len(inits) != 1 or a.flow.rvalue(inits[0][3], 0)[:2] != ('const', 0) or len(incs) != 1 or incs[0][0] != 'assign':
+        return False
+    u = paths.additive_update(a, a.blocks[incs[0][1]]['s'][incs[0][2]])
+    if not u or u[1] != 1 or u[2][:2] != ('const', 1):
+        return False
+    ib = incs[0][1]
+    latches = [(x, head) for x in blks if head in a.cfg.succ[x]]
+    # the increment happens only after a removal of the same iteration ...
+    if ib != rb and ib in a.cfg.reach([head], cut_edges=set(a.cfg.out_edges(rb)) | set(latches)):
+        return False
+    # ... and every removal is followed by it before the iteration ends
+    if ib != rb:
+        r_ = a.cfg.reach_after([rb], cut_edges=set(a.cfg.out_edges(ib)) | set(latches))
+        if any(x in r_ and (x, h) not in set(a.cfg.out_edges(ib)) for (x, h) in latches):
+            return False
+    return True
 
 
 HELPER_SUMMARIES = {}   # helper qpath -> (index of removed-bytes component, index of removed-count component) in its Ok tuple
@@ -405,6 +432,14 @@ def r13b(ctx):
     ctx.check(ok, 'R13b', fn, 'evict?', a.loc(ev), 'maybe_evict errors propagate: ' + d)
     # file deletions only after release
     rms = a.calls('chunk_cache::disk::remove_file') + a.calls('std::fs::remove_file') + a.calls('chunk_cache::disk::check_remove_dir')
+    # a deleter handed to an iterator consumer (`paths.into_iter().try_for_each(remove_file)`) deletes at the consumer call
+    for cb in a.calls():
+        for i_ in range(len(a.term(cb)['args'])):
+            v = a.arg(cb, i_)
+            if v[0] == 'fn':
+                q = ctx.cg.norm.get(sg(v[1]))
+                if sg(v[1]).endswith('remove_file') or (q and ctx.cg.reaches(q, lambda c: c.endswith('::remove_file'))):
+                    rms.append(cb)
     bad = [r for r in rms if r in g.live]
     ctx.check(bool(rms) and not bad, 'R13b', fn, 'remove_file', a.loc(bad[0]) if bad else '-', '%d file deletions, all after the guard\'s release' % len(rms),
               'a file is deleted while the state guard is (possibly) held')
